@@ -29,7 +29,7 @@ def tasks(tier):
     t = _gen.entry_tasks(tier) + _gen.dep_tasks(tier)
     from . import _core as _c0
 
-    t += _c0.signature_tasks()
+    t += _c0.signature_tasks() + _tm.register_unbounded_tasks() + _tm.resolve_unbounded_tasks()
     t += _tm.sort_types_tasks()[:1] + _tm.typemap_tasks()[1:2]
     t += _tm.mro_unbounded_tasks()[:1] + _tm.e2e_tasks(["complete"], tier)
     t += [_tm.T(f"subclasscheck/meaning[{k}]", mro_c.t_sc_meaning(k)) for k in mro_c.C13_KINDS]
